@@ -399,6 +399,32 @@ theorem short_device_denotes (sch : Nat → Nat) (d : Model.Dev) :
     Denotes (Model.shortSrc sch) d (d.buf.drop d.pos) .eof :=
   Model.shortSrc_denotes sch d
 
+/-! ## Headers under short writes of the sink (finding F9(2), writer side)
+
+The writer model (`Model/Writer.lean`) performs every header / central-directory / end-record write as
+`M.writeAll` or `M.writeChunks` (a list of `write_all`s) over a sink whose `write` takes the whole
+buffer.  The real `write_all` is a retry loop; over the same device with an ARBITRARY short-write
+schedule (`Model.shortWr sch`: call `k` accepts at most `max (sch k) 1` bytes, overwriting / extending
+at the current position like `Cursor<Vec<u8>>`) the loop leaves exactly the bytes and the position the
+model's whole write leaves - including writes in the middle of the file (the size/CRC patch after
+seeking back) and writes past the end (zero fill).  The entry DATA path is `caller_split_independent`
+below. -/
+
+/-- One `write_all`. -/
+theorem write_all_absorbs_short_writes (sch : Nat → Nat) (bs : Bytes) (d sd : Model.Dev)
+    (hb : sd.buf = d.buf) (hp : sd.pos = d.pos) :
+    ∃ d' sd', Model.M.writeAll bs none d = (.ok (), d') ∧
+      writeAll (Model.shortWr sch) sd bs = (.ok (), sd') ∧ sd'.buf = d'.buf ∧ sd'.pos = d'.pos :=
+  Model.short_writeAll_sim sch bs d sd ⟨hb, hp⟩
+
+/-- A record written as a list of `write_all`s (local header, central header, end records). -/
+theorem header_writes_absorb_short_writes (sch : Nat → Nat) (chunks : List Bytes) (d sd : Model.Dev)
+    (hb : sd.buf = d.buf) (hp : sd.pos = d.pos) :
+    ∃ d' sd', Model.M.writeChunks chunks none d = (.ok (), d') ∧
+      writeAllSeq (Model.shortWr sch) sd chunks = (.ok (), sd') ∧ sd'.buf = d'.buf ∧
+        sd'.pos = d'.pos :=
+  Model.short_writeChunks_sim sch chunks d sd ⟨hb, hp⟩
+
 /-! ## Defect D1 (fixed by c83eb5a): the old ZipCrypto reader was not chunk independent -/
 
 /-- Two underlying readers holding the same two ciphertext bytes - one hands them over together, the
@@ -578,6 +604,15 @@ more calls (so short reads did occur). -/
 example :
     (Model.openBoth Model.oneEntry (fun _ => 1)).map (fun r => (r.1, r.2.1, r.2.2.1.2 == r.2.2.2.2,
       decide (r.2.2.1.1 < r.2.2.2.1))) = some ([[0x61]], [[0x61]], true, true) := by
+  decide +kernel
+
+/-- `header_writes_absorb_short_writes` observed: two chunks written at position 1 of a 3-byte device
+(overwriting, then extending), sink accepting 1 or 2 bytes per call alternately. -/
+example :
+    (writeAllSeq (Model.shortWr (fun k => 1 + k % 2)) ⟨[1, 2, 3], 1, 0⟩ [[9, 9, 9], [8]]).2.buf
+        = [1, 9, 9, 9, 8] ∧
+    (Model.M.writeChunks [[9, 9, 9], [8]] none ⟨[1, 2, 3], 1, 0⟩).2.buf = [1, 9, 9, 9, 8] ∧
+    (writeAllSeq (Model.shortWr (fun k => 1 + k % 2)) ⟨[1, 2, 3], 1, 0⟩ [[9, 9, 9], [8]]).2.calls = 3 := by
   decide +kernel
 
 end ZipVerif.Props.C09
